@@ -15,7 +15,8 @@ TRUSTED_BASE = [
     "Coq 8.16.1 kernel (coqc, vm_compute for case evaluation); no axioms (Print Assumptions: closed)",
     "hand-written Gallina models: coq/Model/ClaimCodec.v (claim text/byte parsers, scalar unpackers, with checked slicing and the panicking hex decoder of the scalar library as primitives) and coq/Model/Skeleton.v (control flow of Presentation::verify, the verifiers and both proofs of signature knowledge with every cryptographic test replaced by an oracle boolean; slice indexing and unsigned subtraction as checked primitives)",
     "correspondence: harness/src/ops_total.rs (structural mutation of CBOR trees of valid objects, byte-level mutation of CBOR/BARE/JSON encodings, catch_unwind around every entry point, panic location from the panic hook), harness/src/ops_codec.rs (hand-written from_bytes codecs), harness/src/ops_data.rs, lib/c20.py",
-    "modelled, not verified: Presentation::create, blind-request handling, to_unblinded, the serde decoders and the hand-written byte codecs are exercised by the mutation harness only (no Coq model of their control flow in this property); third-party crates (serde_cbor, serde_bare, serde_json, bulletproofs, blstrs_plus) are opaque",
+    "coq/Model/SkelCreate.v (Presentation::create, get_message_types, EqualityBuilder::commit) and coq/Model/SkelBlind.v (BlindCredentialRequest::new / verify, blind_sign_credential with context verification and BlindSignature::new, to_unblinded) in the same style; hypotheses of their theorems: unique keys in the credential map and in each equality statement's reference map, the issuer's own schema has as many claim schemas as labels",
+    "modelled, not verified: the serde decoders and the hand-written byte codecs are exercised by the mutation harness only (no Coq model of their control flow in this property); third-party crates (serde_cbor, serde_bare, serde_json, bulletproofs, blstrs_plus) are opaque",
 ]
 ASSUMPTIONS = [
     "termination: every modelled function is structurally recursive Gallina; the implementation's loops are bounded by the lengths of its inputs (observed by the harness finishing every case)",
